@@ -565,7 +565,7 @@ class Built:
 def build(form: str, protected: dict, plaintext: bytes, rcpts: list[Rcpt], rng, unprotected: dict | None = None,
           aad: bytes | None = None, spell_header: bool = False, cek: bytes | None = None, iv: bytes | None = None,
           content_octets: bytes | None = None, protected_text: bytes | None = None, eph_factory=None,
-          p2c: int = 1000, zlib_wrap: bool = False, wrap_cek: bytes | None = None) -> Built:
+          p2c: int = 1000, zlib_wrap: bool = False, wrap_cek: bytes | None = None, omit=()) -> Built:
     """Encrypt as an RFC-conformant (or deliberately Byzantine) sender.
     protected must contain 'enc' (and for compact 'alg').  Algorithm parameters
     (epk, p2s/p2c, iv/tag) go to the protected header for compact, else to the
@@ -670,6 +670,12 @@ def build(form: str, protected: dict, plaintext: bytes, rcpts: list[Rcpt], rng, 
             late.append(r)
         else:
             raise Reject("unknown alg %r" % (r.alg,))
+    # Byzantine: leave out algorithm parameters the recipient needs (they were used above, they are just not sent)
+    for name in omit:
+        protected.pop(name, None)
+        for r in rcpts:
+            if r.header:
+                r.header.pop(name, None)
     # content
     if protected_text is None:
         protected_text = spell(protected, rng.sub("spell")) if spell_header else compact_json(protected)
